@@ -834,3 +834,88 @@ def r04_4(ctx, rr):
                     okf = True
         rr.instances += 1
         rr.check(okf, "%s:forward-scan-advances" % short_fn(fb.key), "%s: while the window is empty the scan must move to the next word (`word_idx += 1`) and reload the window from it" % fb.key, fb.span)
+
+
+PRIM_ALIGN = {"u8": 1, "i8": 1, "u16": 2, "i16": 2, "u32": 4, "i32": 4, "f32": 4, "u64": 8, "i64": 8, "usize": 8, "isize": 8, "f64": 8, "u128": 16, "i128": 16,
+              "std::sync::atomic::AtomicUsize": 8, "std::sync::atomic::AtomicU64": 8}
+
+
+@rule("R12.7", props=["C12", "C15", "C01", "C02", "C06"], floor=40, title="reinterpreting storage never assumes more alignment than the element type gives: align_to towards a more aligned type uses its prefix and suffix; casted pointers to a more aligned type are read/written unaligned")
+def r12_7(ctx, rr):
+    """Allocations made by Vec/Box happen to be 16-byte aligned, but a structure loaded with deserialize_eps / mmap
+    (or built over a caller's slice) is only as aligned as its element type. `s.align_to::<u128>().1` on u64 or
+    4-byte-aligned data drops a prefix there; `*(p as *const u128)` is undefined behaviour there."""
+    F = ctx.F()
+    lay = F.raw.get("layouts", {})
+
+    def align_of(ty):
+        ty = ty.strip()
+        if ty in PRIM_ALIGN:
+            return PRIM_ALIGN[ty]
+        m = re.match(r"^\[(.+); \d+\]$", ty)
+        if m:
+            return align_of(m.group(1))
+        cands = [v["align"] for k, v in lay.items() if k == ty or k.endswith("::" + ty) or ty.endswith("::" + k.split("::")[-1]) and k.split("::")[-1] == ty.split("::")[-1].split("<")[0]]
+        if len(set(cands)) == 1:
+            return cands[0]
+        return None  # generic parameter or unknown
+
+    sites = 0
+    for b in F.fns():
+        if is_derived(b):
+            continue
+        pm = None
+        for n in walk(b.body):
+            if n.get("k") == "MethodCall" and n["name"] in ("align_to", "align_to_mut") and len(n.get("ga") or []) == 2:
+                sites += 1
+                rr.instances += 1
+                src, dst = n["ga"]
+                a_src, a_dst = align_of(src), align_of(dst)
+                key = "%s:align_to:%s->%s" % (short_fn(b.key), src, dst)
+                if a_dst is not None and (a_dst == 1 or (a_src is not None and a_dst <= a_src)):
+                    rr.ob(True, key=key)
+                    continue
+                # towards a (possibly) more aligned type: prefix and suffix must be bound and used
+                if pm is None:
+                    pm = {id(x): ps for x, ps in walk_with_parents(b.body)}
+                ps = pm.get(id(n), ())
+                # skip an enclosing `unsafe { .. }` block
+                par = None
+                for q in reversed(ps):
+                    if q.get("k") == "Block" and q.get("expr") is not None and (q["expr"] is n or any(x is n for x in walk(q["expr"]))) and not q.get("stmts"):
+                        continue
+                    par = q
+                    break
+                ok = False
+                if par is not None and par.get("k") == "LetStmt" and par["pat"].get("k") == "PTuple" and len(par["pat"].get("ps", [])) == 3:
+                    pre, _mid, suf = par["pat"]["ps"]
+                    used = []
+                    for side in (pre, suf):
+                        bid = side.get("id") if side.get("k") == "PBind" else None
+                        used.append(bid is not None and any(x.get("k") == "Path" and x.get("res") == "local" and x.get("id") == bid for x in walk(b.body)))
+                    ok = all(used)
+                rr.ob(ok, key=key, sample={"fn": b.key, "call": show(F, n)[:80], "align_src": a_src, "align_dst": a_dst})
+                if not ok:
+                    rr.violate(key, "%s: `%s` views [%s] (alignment %s) as [%s] (alignment %s) and ignores the prefix or the suffix: on storage that is only %s-aligned (zero-copy deserialization, mmap, a caller's slice) the prefix is not empty and its elements are skipped" % (
+                        b.key, show(F, n)[:80], src, a_src if a_src else "unknown", dst, a_dst if a_dst else "unknown", src), F.loc(n))
+            # aligned reads through casted pointers
+            if n.get("k") in ("Call", "MethodCall") and (cname(F, n) or "").split("::")[-1] in ("read", "write", "read_volatile", "write_volatile") and ("ptr::" in (cname(F, n) or "") or "pointer" in (cname(F, n) or "")):
+                casts = [x for x in walk(n) if x.get("k") == "Cast"]
+                for c in casts:
+                    ty = F.ty(c)
+                    m = re.match(r"^\*(const|mut) (.+)$", ty or "")
+                    if not m:
+                        continue
+                    a_dst = align_of(m.group(2))
+                    ity = F.ty(c["e"]) if "e" in c else ""
+                    m2 = re.match(r"^\*(const|mut) (.+)$", ity or "")
+                    a_src = align_of(m2.group(2)) if m2 else None
+                    sites += 1
+                    rr.instances += 1
+                    key = "%s:aligned-access-through-cast:%s" % (short_fn(b.key), m.group(2))
+                    ok = a_dst == 1 or (a_src is not None and a_dst is not None and a_dst <= a_src)
+                    rr.ob(ok, key=key)
+                    if not ok:
+                        rr.violate(key, "%s: `%s` is an aligned access through a pointer cast to %s (alignment %s) from %s: use read_unaligned / write_unaligned, the storage is only as aligned as its own element type" % (b.key, show(F, n)[:80], m.group(2), a_dst, ity), F.loc(n))
+    if sites < 40:
+        raise AnchorMissing("R12.7 saw %d reinterpretation sites" % sites)
